@@ -14,7 +14,7 @@ Norm(ev) == [ev EXCEPT !.op = [op |-> ev.op.op, dt |-> ev.op.dt, tok |-> ev.op.t
                                 tfail |-> ev.op.tfail, x |-> ev.op.x, tgt |-> ev.op.tgt,
                                 oper |-> ev.op.oper, oauth |-> ev.op.oauth]]
 
-Init == l = 1 /\ g = [list |-> {}] /\ dead = FALSE /\ cnt = [m \in Monitors |-> 0]
+Init == l = 1 /\ g = [list |-> {}] /\ dead = {} /\ cnt = [m \in Monitors |-> 0]
 
 Report(ev, m) == PrintT(<<"VIOL", ToJson([run |-> ev.run, i |-> ev.i, line |-> l, mon |-> m,
                                           prop |-> PropOf(m), key |-> Key(m, g, ev)])>>)
@@ -25,11 +25,11 @@ Next ==
   /\ LET raw == Rec[l] IN
      IF raw.op.op = "reset"
      THEN /\ g' = GInit(raw.obs, raw.op.flavour, raw.op.strategy, ToSet(raw.op.exec), ToSet(raw.op.mgr))
-          /\ dead' = FALSE /\ UNCHANGED cnt
-     ELSE IF dead THEN UNCHANGED <<g, dead, cnt>>
-     ELSE LET ev == Norm(raw)  f == Failing(g, ev) IN
+          /\ dead' = {} /\ UNCHANGED cnt
+     \* (dead: the properties already violated in this run; the others keep being judged)
+     ELSE LET ev == Norm(raw)  f == {m \in Failing(g, ev) : PropOf(m) \notin dead} IN
           /\ \A m \in f : Report(ev, m)
-          /\ dead' = (f # {})
+          /\ dead' = dead \cup {PropOf(m) : m \in f}
           /\ g' = GNext(g, ev)
           /\ cnt' = [m \in Monitors |-> cnt[m] + IF Ante(m, g, ev) THEN 1 ELSE 0]
   /\ (l = Len(Rec) => PrintT(<<"DONE", l, ToJson(cnt')>>))
